@@ -104,7 +104,10 @@ def run(ctx):
             cont = pem.args[1]
             pl = places(cont)
             cs = calls_of(cont)
-            ok = pl == {src} and all(any(c == w for c in cs) for w in via) and not [r for r in roots(cont) if r.startswith("op:")]
+            # the DER accessor of the same object, called or (for a plain field accessor) read directly
+            src_ok = pl == {src} or (src == "self" and via == ["certificate::Certificate::der"] and pl == {"self.der"})
+            via_ok = all(any(c == w for c in cs) for w in via) or (pl == {"self.der"} and via == ["certificate::Certificate::der"])
+            ok = src_ok and via_ok and not [r for r in roots(cont) if r.startswith("op:")]
             rep.ob("C14.label", key + "|contents", ok, "the envelope contains exactly the bytes of the corresponding DER accessor of the same object", expected="%s via %s" % (src, via), found="%s via %s" % (sorted(pl), sorted(cs)))
             rep.sample({"rule": "C14.label", "cfg": cfg, "fn": fn, "label": lab, "contents": core(cont).r()[:120]})
         rep.floor("C14.label", "PEM producing sites (%s)" % cfg, n, 5)
